@@ -108,6 +108,14 @@ def DecOutgoing_guard_1 (supply_OutgoingSupply : Coin) (coin : Coin) : Option (B
   let t1 ← Int_Sub supply_OutgoingSupply.amount coin.amount
   some (Int_IsNegative t1)
 
+/-- argument 1 of `k.IncrementIncomingAssetSupply` -/
+def createHTLT_call_IncrementIncomingAssetSupply_1_arg1 (amount_0 : Coin) : Option (Coin) := do
+  some amount_0
+
+/-- argument 1 of `k.IncrementOutgoingAssetSupply` -/
+def createHTLT_call_IncrementOutgoingAssetSupply_1_arg1 (amount_0 : Coin) : Option (Coin) := do
+  some amount_0
+
 /-- rejects when true: `len(amount) != 1` -/
 def createHTLT_guard_1 (read_len_amount : Int) : Option (Bool) := do
   some (read_len_amount != (1 : Int))
@@ -141,6 +149,30 @@ def createHTLT_guard_8 (amount_0 : Coin) (asset_FixedFee : Int) (asset_MinSwapAm
   let t1 ← Int_Add asset_FixedFee asset_MinSwapAmount
   some (Int_LT amount_0.amount t1)
 
+/-- argument 1 of `k.DecrementIncomingAssetSupply` -/
+def claimHTLT_call_DecrementIncomingAssetSupply_1_arg1 (htlc_Amount_0 : Coin) : Option (Coin) := do
+  some htlc_Amount_0
+
+/-- argument 1 of `k.IncrementCurrentAssetSupply` -/
+def claimHTLT_call_IncrementCurrentAssetSupply_1_arg1 (htlc_Amount_0 : Coin) : Option (Coin) := do
+  some htlc_Amount_0
+
+/-- argument 1 of `k.DecrementOutgoingAssetSupply` -/
+def claimHTLT_call_DecrementOutgoingAssetSupply_1_arg1 (htlc_Amount_0 : Coin) : Option (Coin) := do
+  some htlc_Amount_0
+
+/-- argument 1 of `k.DecrementCurrentAssetSupply` -/
+def claimHTLT_call_DecrementCurrentAssetSupply_1_arg1 (htlc_Amount_0 : Coin) : Option (Coin) := do
+  some htlc_Amount_0
+
+/-- argument 1 of `k.DecrementIncomingAssetSupply` -/
+def refundHTLT_call_DecrementIncomingAssetSupply_1_arg1 (amount_0 : Coin) : Option (Coin) := do
+  some amount_0
+
+/-- argument 1 of `k.DecrementOutgoingAssetSupply` -/
+def refundHTLT_call_DecrementOutgoingAssetSupply_1_arg1 (amount_0 : Coin) : Option (Coin) := do
+  some amount_0
+
 def UpdateWindow_newTimeElapsed_1 (supply_TimeElapsed : Int) (timeElapsed : Int) : Option (Int) := do
   some (I64_Add supply_TimeElapsed timeElapsed)
 
@@ -158,6 +190,6 @@ def UpdateWindow_cond_1 (asset_SupplyLimit_TimeLimited : Bool) (newTimeElapsed :
 def untranslated : List String := []
 
 /-- names of the translated definitions -/
-def translated : List String := ["IncCurrent_supplyLimit_1(coin,limit_Limit)", "IncCurrent_timeBasedSupplyLimit_1(coin,limit_TimeBasedLimit)", "IncCurrent_supply_TimeLimitedCurrentSupply_1(supply_TimeLimitedCurrentSupply,coin)", "IncCurrent_supply_CurrentSupply_1(supply_CurrentSupply,coin)", "IncCurrent_guard_1(supplyLimit,supply_CurrentSupply,coin)", "IncCurrent_cond_2(limit_TimeLimited)", "IncCurrent_guard_3(timeBasedSupplyLimit,supply_TimeLimitedCurrentSupply,coin)", "DecCurrent_supply_CurrentSupply_1(supply_CurrentSupply,coin)", "DecCurrent_guard_1(supply_CurrentSupply,coin)", "IncIncoming_totalSupply_1(supply_CurrentSupply,supply_IncomingSupply)", "IncIncoming_supplyLimit_1(coin,limit_Limit)", "IncIncoming_timeLimitedTotalSupply_1(supply_TimeLimitedCurrentSupply,supply_IncomingSupply)", "IncIncoming_timeBasedSupplyLimit_1(coin,limit_TimeBasedLimit)", "IncIncoming_supply_IncomingSupply_1(supply_IncomingSupply,coin)", "IncIncoming_guard_1(supplyLimit,totalSupply,coin)", "IncIncoming_cond_2(limit_TimeLimited)", "IncIncoming_guard_3(timeBasedSupplyLimit,timeLimitedTotalSupply,coin)", "DecIncoming_supply_IncomingSupply_1(supply_IncomingSupply,coin)", "DecIncoming_guard_1(supply_IncomingSupply,coin)", "IncOutgoing_supply_OutgoingSupply_1(supply_OutgoingSupply,coin)", "IncOutgoing_guard_1(supply_CurrentSupply,supply_OutgoingSupply,coin)", "DecOutgoing_supply_OutgoingSupply_1(supply_OutgoingSupply,coin)", "DecOutgoing_guard_1(supply_OutgoingSupply,coin)", "createHTLT_guard_1(read_len_amount)", "createHTLT_guard_2(amount_0,asset_MinSwapAmount,asset_MaxSwapAmount)", "createHTLT_guard_3(timestamp,pastTimestampLimit,futureTimestampLimit)", "createHTLT_cond_4(read_sender_Equals_deputyAddress)", "createHTLT_guard_5(read_to_Equals_deputyAddress)", "createHTLT_guard_6(read_to_Equals_deputyAddress)", "createHTLT_guard_7(timeLock,asset_MinBlockLock,asset_MaxBlockLock)", "createHTLT_guard_8(amount_0,asset_FixedFee,asset_MinSwapAmount)", "UpdateWindow_newTimeElapsed_1(supply_TimeElapsed,timeElapsed)", "UpdateWindow_supply_TimeElapsed_1(newTimeElapsed)", "UpdateWindow_supply_TimeElapsed_2()", "UpdateWindow_cond_1(asset_SupplyLimit_TimeLimited,newTimeElapsed,asset_SupplyLimit_TimePeriod)"]
+def translated : List String := ["IncCurrent_supplyLimit_1(coin,limit_Limit)", "IncCurrent_timeBasedSupplyLimit_1(coin,limit_TimeBasedLimit)", "IncCurrent_supply_TimeLimitedCurrentSupply_1(supply_TimeLimitedCurrentSupply,coin)", "IncCurrent_supply_CurrentSupply_1(supply_CurrentSupply,coin)", "IncCurrent_guard_1(supplyLimit,supply_CurrentSupply,coin)", "IncCurrent_cond_2(limit_TimeLimited)", "IncCurrent_guard_3(timeBasedSupplyLimit,supply_TimeLimitedCurrentSupply,coin)", "DecCurrent_supply_CurrentSupply_1(supply_CurrentSupply,coin)", "DecCurrent_guard_1(supply_CurrentSupply,coin)", "IncIncoming_totalSupply_1(supply_CurrentSupply,supply_IncomingSupply)", "IncIncoming_supplyLimit_1(coin,limit_Limit)", "IncIncoming_timeLimitedTotalSupply_1(supply_TimeLimitedCurrentSupply,supply_IncomingSupply)", "IncIncoming_timeBasedSupplyLimit_1(coin,limit_TimeBasedLimit)", "IncIncoming_supply_IncomingSupply_1(supply_IncomingSupply,coin)", "IncIncoming_guard_1(supplyLimit,totalSupply,coin)", "IncIncoming_cond_2(limit_TimeLimited)", "IncIncoming_guard_3(timeBasedSupplyLimit,timeLimitedTotalSupply,coin)", "DecIncoming_supply_IncomingSupply_1(supply_IncomingSupply,coin)", "DecIncoming_guard_1(supply_IncomingSupply,coin)", "IncOutgoing_supply_OutgoingSupply_1(supply_OutgoingSupply,coin)", "IncOutgoing_guard_1(supply_CurrentSupply,supply_OutgoingSupply,coin)", "DecOutgoing_supply_OutgoingSupply_1(supply_OutgoingSupply,coin)", "DecOutgoing_guard_1(supply_OutgoingSupply,coin)", "createHTLT_call_IncrementIncomingAssetSupply_1_arg1(amount_0)", "createHTLT_call_IncrementOutgoingAssetSupply_1_arg1(amount_0)", "createHTLT_guard_1(read_len_amount)", "createHTLT_guard_2(amount_0,asset_MinSwapAmount,asset_MaxSwapAmount)", "createHTLT_guard_3(timestamp,pastTimestampLimit,futureTimestampLimit)", "createHTLT_cond_4(read_sender_Equals_deputyAddress)", "createHTLT_guard_5(read_to_Equals_deputyAddress)", "createHTLT_guard_6(read_to_Equals_deputyAddress)", "createHTLT_guard_7(timeLock,asset_MinBlockLock,asset_MaxBlockLock)", "createHTLT_guard_8(amount_0,asset_FixedFee,asset_MinSwapAmount)", "claimHTLT_call_DecrementIncomingAssetSupply_1_arg1(htlc_Amount_0)", "claimHTLT_call_IncrementCurrentAssetSupply_1_arg1(htlc_Amount_0)", "claimHTLT_call_DecrementOutgoingAssetSupply_1_arg1(htlc_Amount_0)", "claimHTLT_call_DecrementCurrentAssetSupply_1_arg1(htlc_Amount_0)", "refundHTLT_call_DecrementIncomingAssetSupply_1_arg1(amount_0)", "refundHTLT_call_DecrementOutgoingAssetSupply_1_arg1(amount_0)", "UpdateWindow_newTimeElapsed_1(supply_TimeElapsed,timeElapsed)", "UpdateWindow_supply_TimeElapsed_1(newTimeElapsed)", "UpdateWindow_supply_TimeElapsed_2()", "UpdateWindow_cond_1(asset_SupplyLimit_TimeLimited,newTimeElapsed,asset_SupplyLimit_TimePeriod)"]
 
 end Irismod.Gen.PureHtlc
